@@ -144,3 +144,82 @@ Proof.
   { apply reach_init. }
   apply reach_ok in R. unfold p_ok in R. cbn [ps_m] in R. apply N.eqb_eq in R. exact R.
 Qed.
+
+(* ---- the control state after a concrete run is a reachable control state ---- *)
+Fixpoint final_state (s : state) (es : list eventx) : state :=
+  match es with
+  | [] => s
+  | e :: r => final_state (fst (step s e)) r
+  end.
+
+Lemma run_reach_final r idk es : forall c d m,
+  normal c ->
+  reach pnext (pinit r idk) (mkPs (of_cs c) m) ->
+  normal (fst (final_state (c, d) es)) /\
+  reach pnext (pinit r idk)
+        (mkPs (of_cs (fst (final_state (c, d) es))) (mon_run m (atrace (c, d) es))).
+Proof.
+  induction es as [|e es IH]; intros c d m N R.
+  - split; [exact N|exact R].
+  - cbn [atrace final_state step].
+    destruct (cstep c (abs_ev c (d_stored d) e)) as [c' l] eqn:E.
+    destruct (conc d (x_ev e) l) as [d' os] eqn:Ec. cbn [fst].
+    assert (N' : normal c').
+    { pose proof (cstep_normal c (abs_ev c (d_stored d) e) N) as H. rewrite E in H. exact H. }
+    assert (R' : reach pnext (pinit r idk)
+                   (mkPs (of_cs c') (mon_run m (BEv (abs_ev c (d_stored d) e) :: l)))).
+    { eapply reach_step; [exact R|]. unfold pnext. cbn [ps_c].
+      rewrite (to_of_cs c N).
+      apply in_map_iff. exists (abs_ev c (d_stored d) e). split; [|apply abs_ev_in].
+      unfold pstep. cbn [ps_c ps_m]. rewrite (to_of_cs c N), E. reflexivity. }
+    destruct (IH c' d' _ N' R') as [N'' R''].
+    split; [exact N''|]. rewrite mon_run_app in R''.
+    replace (BEv (abs_ev c (d_stored d) e) :: l ++ atrace (c', d') es)
+      with ((BEv (abs_ev c (d_stored d) e) :: l) ++ atrace (c', d') es) by reflexivity.
+    exact R''.
+Qed.
+
+(* C03, arbitrary mode, single endpoint: after ANY event list (timers expiring at any
+   point, any delays) a side that has given up has closed its transport or has the
+   goroutine pending that will; and a transport error reported in any reachable state
+   leaves the side in a terminal state, transport closed, no timer armed *)
+Theorem gave_up_side_closes r stored local es :
+  let c := fst (final_state (init_state r stored local) es) in
+  terminal_state (st c) = true -> wclosed c || d500 c || d1000 c = true.
+Proof.
+  intros c T. unfold init_state in c.
+  destruct (run_reach_final r (negb (is_nil stored)) es (init_cs r (negb (is_nil stored)))
+              (mkD stored local []) (init_ms r (negb (is_nil stored))) (init_normal _ _)
+              (reach_init _ _ _)) as [_ R].
+  apply reach_shape in R. unfold p_shape in R. cbn [ps_c] in R.
+  apply andb_true_iff in R as [R _]. apply andb_true_iff in R as [_ R].
+  unfold gave_up_closes in R. cbn [p_st p_wclosed p_d500 p_d1000 of_cs] in R.
+  fold c in R. rewrite T in R. exact R.
+Qed.
+
+Theorem transport_error_ends_side r stored local es e :
+  x_ev e = EConnErr ->
+  let s := final_state (init_state r stored local) es in
+  let c' := fst (fst (step s e)) in
+  terminal_state (st c') = true /\ wclosed c' = true /\ armed c' = false.
+Proof.
+  intros He s c'. unfold init_state in s.
+  destruct (run_reach_final r (negb (is_nil stored)) es (init_cs r (negb (is_nil stored)))
+              (mkD stored local []) (init_ms r (negb (is_nil stored))) (init_normal _ _)
+              (reach_init _ _ _)) as [N R].
+  fold s in N, R.
+  apply reach_shape in R. unfold p_shape in R. cbn [ps_c] in R.
+  rewrite (to_of_cs _ N) in R. apply andb_true_iff in R as [_ R].
+  rewrite forallb_forall in R.
+  destruct s as [c d] eqn:Es. cbn [fst] in R, N.
+  specialize (R _ (abs_ev_in c (d_stored d) e)). apply andb_true_iff in R as [_ R].
+  unfold connerr_ends in R.
+  assert (Hev : ev (abs_ev c (d_stored d) e) = CConnErr).
+  { unfold abs_ev. cbn [ev]. rewrite He. reflexivity. }
+  rewrite Hev in R.
+  subst c'. cbn [step].
+  destruct (cstep c (abs_ev c (d_stored d) e)) as [c2 l] eqn:E.
+  destruct (conc d (x_ev e) l) as [d2 os]. cbn [fst] in *.
+  apply andb_true_iff in R as [R R3]. apply andb_true_iff in R as [R1 R2].
+  apply negb_true_iff in R3. auto.
+Qed.
